@@ -250,7 +250,7 @@ class LifeCycle:
         if getattr(self, "drop_time", None) is not None:
             # the first acknowledgement after the injected loss never reached F: from then until the next one the BBMD serves
             # an entry that F has reason to doubt (its watchdog may make it discard what it is sent): nothing is demanded
-            later = [a for a in self.acks if a >= self.drop_time]
+            later = [a for a in self.acks if a > self.drop_time]
             if later and t >= later[0] and (len(later) < 2 or t < later[1]):
                 return "either"
         if self.delete_ack is not None and self.delete_ack <= t and last <= self.delete_ack:
@@ -277,7 +277,10 @@ class LifeCycle:
         CLOCK.settle()
         at = [e["at"] for e in self.log[l0:] if e["token"] == tok]
         n = at.count("F")
-        w = dict(self.wit, at=t - CLOCK.START, last_ack=(self.acks[-1] - CLOCK.START) if self.acks else None, expectation=exp)
+        w = dict(self.wit, at=t - CLOCK.START, last_ack=(self.acks[-1] - CLOCK.START) if self.acks else None, expectation=exp,
+                 acknowledgements=[round(a - CLOCK.START, 1) for a in self.acks][-6:],
+                 acknowledgement_lost_after=(round(self.drop_time - CLOCK.START, 1) if getattr(self, "drop_time", None) is not None else None),
+                 device_status=getattr(self.fd.bip, "registrationStatus", None))
         if exp == "must" and n != 1:
             self.run.violation("registered-foreign-device-not-served/broadcast-to-it" if n == 0 else "foreign-device-served-twice", dict(w, deliveries=n))
             return False
